@@ -134,6 +134,8 @@ type Frame struct {
 	loopFields map[string]map[int]bool
 	loopWhole  map[string]bool
 	loopFieldT map[string]types.Type
+	except     []Term
+	exceptDone bool
 	entry    *State
 	params   map[string]TV // entry values of parameters, by name
 	heapCell map[*ssa.Alloc]bool
@@ -1158,13 +1160,13 @@ func (fr *Frame) enterLoop(l *loop, st *State) error {
 	}
 	// a function that modifies nothing keeps, as an automatic loop invariant, every object that
 	// existed at entry unchanged in the heap arrays the loop writes
-	frameLoop := fr.isTop && fr.con != nil && (fr.con.Pure || modifiesNothing(fr.con))
+	frameLoop := fr.isTop && fr.con != nil && (fr.con.Pure || modifiesNothing(fr.con) || len(modifiesPointees(fr.con)) > 0)
 	pre := st.clone()
 	// havoc what the loop modifies
 	lr.frameKeys = fr.havocLoop(l, st)
 	if frameLoop {
 		for _, k := range lr.frameKeys {
-			fr.oblige("invariant-entry", fmt.Sprintf("loop%d/frame/%s", l.ordinal, sanitize(k)), implies(fr.reach, fr.frameInv(k, pre)), token.NoPos, "modifies nothing: "+k+" unchanged on loop entry")
+			fr.oblige("invariant-entry", fmt.Sprintf("loop%d/frame/%s", l.ordinal, sanitize(k)), implies(fr.reach, fr.frameInv(k, pre)), token.NoPos, "frame: "+k+" unchanged on loop entry")
 			c.sc.assume(implies(fr.reach, fr.frameInv(k, st)))
 		}
 	} else {
@@ -1260,7 +1262,7 @@ func (fr *Frame) backEdge(l *loop, from *ssa.BasicBlock, cond Term, st *State) {
 		fr.oblige("invariant-preserved", fmt.Sprintf("loop%d/range", l.ordinal), implies(cond, lr.autoInv(st)), token.NoPos, "range index bounds preserved")
 	}
 	for _, k := range lr.frameKeys {
-		fr.oblige("invariant-preserved", fmt.Sprintf("loop%d/frame/%s", l.ordinal, sanitize(k)), implies(cond, fr.frameInv(k, st)), token.NoPos, "modifies nothing: "+k+" unchanged by the loop body")
+		fr.oblige("invariant-preserved", fmt.Sprintf("loop%d/frame/%s", l.ordinal, sanitize(k)), implies(cond, fr.frameInv(k, st)), token.NoPos, "frame: "+k+" unchanged by the loop body")
 	}
 	for i, cl := range fr.loopClauses(l, "invariant") {
 		t, err := ec.evalBool(cl.Expr)
@@ -1402,7 +1404,13 @@ func (fr *Frame) frameInv(k string, st *State) Term {
 	}
 	inner := Sort(strings.TrimSuffix(strings.TrimPrefix(string(entry.Sort), "(Array Ref "), ")"))
 	c.sc.declFun("alloc_id", []Sort{SRef}, SInt)
-	return Term{fmt.Sprintf("(forall ((r Ref)) (=> (<= (alloc_id r) 0) (= %s %s)))", sel(cur, Term{"r", SRef}, inner).S, sel(entry, Term{"r", SRef}, inner).S), SBool}
+	guard := "(<= (alloc_id r) 0)"
+	if fr.con != nil && len(modifiesPointees(fr.con)) > 0 {
+		for _, e := range fr.frameExcept() {
+			guard = fmt.Sprintf("(and %s (not (= r %s)))", guard, e.S)
+		}
+	}
+	return Term{fmt.Sprintf("(forall ((r Ref)) (=> %s (= %s %s)))", guard, sel(cur, Term{"r", SRef}, inner).S, sel(entry, Term{"r", SRef}, inner).S), SBool}
 }
 
 // wfKey re-establishes type well-formedness of a havoced local cell.
@@ -1575,10 +1583,67 @@ func collectEscapes(v ssa.Value, seen map[ssa.Value]bool, out *[]ssa.Instruction
 			if !ok || (b.Name() != "len" && b.Name() != "cap") {
 				*out = append(*out, r)
 			}
+		case *ssa.MakeClosure:
+			if !closureKeepsPrivate(u, v) {
+				*out = append(*out, r)
+			}
 		default:
 			*out = append(*out, r)
 		}
 	}
+}
+
+// closureKeepsPrivate: v is captured by closure mc, but mc is only deferred or called on the spot
+// by the function itself (never passed or stored), and inside the closure the captured variable is
+// only read and written: the variable stays unreachable for every other function.
+func closureKeepsPrivate(mc *ssa.MakeClosure, v ssa.Value) bool {
+	refs := mc.Referrers()
+	if refs == nil {
+		return false
+	}
+	for _, r := range *refs {
+		switch x := r.(type) {
+		case *ssa.DebugRef:
+		case *ssa.Defer:
+			if x.Call.Value != mc {
+				return false
+			}
+			for _, a := range x.Call.Args {
+				if a == ssa.Value(mc) {
+					return false
+				}
+			}
+		case *ssa.Call:
+			if x.Call.Value != mc {
+				return false
+			}
+			for _, a := range x.Call.Args {
+				if a == ssa.Value(mc) {
+					return false
+				}
+			}
+		default:
+			return false
+		}
+	}
+	fn, ok := mc.Fn.(*ssa.Function)
+	if !ok {
+		return false
+	}
+	for i, b := range mc.Bindings {
+		if b != v || i >= len(fn.FreeVars) {
+			continue
+		}
+		if fn.FreeVars[i].Referrers() == nil {
+			return false
+		}
+		var esc []ssa.Instruction
+		collectEscapes(fn.FreeVars[i], map[ssa.Value]bool{}, &esc, mc)
+		if len(esc) > 0 {
+			return false
+		}
+	}
+	return true
 }
 
 type privRef struct {
